@@ -153,6 +153,7 @@ impl Scenario for IinScenario {
                 _ => {}
             }
         }
+        crate::verif::props::gen_out::sprinkle_splits(rng, &mut script);
         SoutCase {
             cfg,
             ctrl: CtrlAnswers::AllSuccess,
